@@ -489,8 +489,16 @@ fn gen_outbound(kind: OutKind, ch: &mut Choices) -> Plan {
                     ops.push(AppOp::PubQ2 { len, pid: None });
                     ops.push(if ch.chance(1, 3) { AppOp::DropReceipt } else { AppOp::Release });
                 }
-                3 => ops.push(AppOp::Subscribe { n: 1 + ch.choose(3) as u8, pid: None }),
-                4 => ops.push(AppOp::Unsubscribe { n: 1 + ch.choose(2) as u8, pid: None }),
+                // (a caller-chosen identifier may collide with one that is outstanding: the request is then
+                // refused locally and must leave the other exchange alone)
+                3 => {
+                    let pid = if ch.chance(1, 5) { Some(1 + ch.choose(4) as u16) } else { None };
+                    ops.push(AppOp::Subscribe { n: 1 + ch.choose(3) as u8, pid });
+                }
+                4 => {
+                    let pid = if ch.chance(1, 5) { Some(1 + ch.choose(4) as u16) } else { None };
+                    ops.push(AppOp::Unsubscribe { n: 1 + ch.choose(2) as u8, pid });
+                }
                 5 => ops.push(AppOp::Ready),
                 _ => ops.push(AppOp::Unpolled { what: ch.choose(3) as u8 }),
             }
